@@ -199,7 +199,15 @@ class Write:
                     steps.append({'labels': newlabs, 'values': vals, 'how': rng.choice(['slice', 'list', 'scalar']) if len(newlabs) == 1 else rng.choice(['slice', 'list'])})
                     cur += newlabs
                 stats['write_kind']['unlimited'] += 1
-                cases.append({'kind': 'unlimited', 'tkind': k, 'fixlabs': fixlabs, 'steps': steps, 'fmt': rng.choice(['NETCDF4', 'NETCDF3_CLASSIC']) if all(not isinstance(x, str) for x in fixlabs) else 'NETCDF4'})
+                over = None
+                if cur and rng.random() < 0.35:
+                    # then an assignment INSIDE the existing range, the value being a DimArray whose own time labels are other ones:
+                    # as in memory, only the values change (the axis is extended by writes beyond its end only)
+                    m = rng.randint(1, min(2, len(cur))); p0 = rng.randint(0, len(cur) - m)
+                    over = {'pos': p0, 'm': m, 'labels': [x + 1000 for x in cur[p0:p0 + m]], 'values': [[float(rng.randint(50, 70)) for _ in range(nfix)] for _ in range(m)],
+                            'how': rng.choice(['slice', 'list'])}
+                    stats['write_kind']['unlimited+overwrite'] += 1
+                cases.append({'kind': 'unlimited', 'tkind': k, 'fixlabs': fixlabs, 'steps': steps, 'overwrite': over, 'fmt': rng.choice(['NETCDF4', 'NETCDF3_CLASSIC']) if all(not isinstance(x, str) for x in fixlabs) else 'NETCDF4'})
         return cases[:n]
 
     @staticmethod
@@ -264,6 +272,18 @@ class Write:
                             want = D.DimArray(np.array(allv).reshape(len(alll), len(c['fixlabs'])), axes=[D.Axis(ops.labs_np(alll, c['tkind']), 'time'), h.axes['x'][:]])
                             if json.dumps(c19.obs_array(got), sort_keys=True, default=str) != json.dumps(c19.obs_array(want), sort_keys=True, default=str) and c['_viol'] is None:
                                 c['_viol'] = 'after writing %d rows at positions %d.. of the unlimited dimension (%s), the variable reads %s instead of %s' % (m, pos - m, st['how'], json.dumps(c19.obs_array(got), default=str)[:400], json.dumps(c19.obs_array(want), default=str)[:400])
+                        ov = c.get('overwrite')
+                        if ov and c['_viol'] is None:
+                            piece = D.DimArray(np.array(ov['values']), axes=[D.Axis(ops.labs_np(ov['labels'], c['tkind']), 'time'), h.axes['x'][:]])
+                            mem = h['v'].read()
+                            key = slice(ov['pos'], ov['pos'] + ov['m']) if ov['how'] == 'slice' else list(range(ov['pos'], ov['pos'] + ov['m']))
+                            mem.ix[key] = piece
+                            h['v'].ix[key] = piece
+                            got = h['v'].read()
+                            if json.dumps(c19.obs_array(got), sort_keys=True, default=str) != json.dumps(c19.obs_array(mem), sort_keys=True, default=str):
+                                c['_viol'] = ('assigning a DimArray (time labels %r) to positions %d..%d INSIDE the unlimited dimension: the on-disk variable reads %s, the same assignment in memory gives %s'
+                                              % (ov['labels'], ov['pos'], ov['pos'] + ov['m'] - 1, json.dumps(c19.obs_array(got), default=str)[:300], json.dumps(c19.obs_array(mem), default=str)[:300]))
+                            allv = [list(map(float, row)) for row in mem.values.tolist()]
                     finally:
                         h.close()
                     back = D.read_nc(f, 'v')
@@ -293,6 +313,7 @@ class Write:
     @staticmethod
     def coq_case(c, res):
         if c['kind'] != 'unlimited' or c.get('_final') is None: return None
+        if c.get('overwrite'): return None      # growth is modelled; the assignment inside the range is compared with the in-memory one (oracle)
         fk = 'O' if isinstance(c['fixlabs'][0], str) else ('f' if isinstance(c['fixlabs'][0], float) else 'i')
         nx = len(c['fixlabs'])
         f0 = ('{| nf_fmt3 := %s; nf_dims := [("time", 0); ("x", %d)]; nf_unl := ["time"]; nf_vars := [("x", {| nv_dims := ["x"]; nv_kind := %s; nv_data := map label_cell %s; nv_attrs := [] |}); '
